@@ -130,7 +130,7 @@ class OperatorTable(Expression):
                     out += Code('_operand') << operand_stack.pop()
                     out += operand_stack.append(Code(f'Postfix(_operand, {RESULT[1]})'))
 
-            out += operator_marker << Code(f'len({operator_stack})')
+            out += operator_marker << Code(f'{operator_stack}.__len__()')
             out += outer_checkpoint << POS
 
             if self.infixes:
@@ -162,7 +162,7 @@ class OperatorTable(Expression):
             with out.IF(Code('_is_conflict')):
                 out += BREAK
 
-            out += operator_marker << Code(f'len({operator_stack})')
+            out += operator_marker << Code(f'{operator_stack}.__len__()')
             out += operator_stack.append(RESULT)
 
         with out.IF(operand_stack):
